@@ -49,7 +49,8 @@ theorem box_cmp_table (hsw : ∀ c x y, A.cmp c.swap y x = A.cmp c x y)
     simp [pyCmp, cmpSS, cmpPS, cmpSP, cmpPP, cmpES, cmpSE, cmpEE, cmpEP, cmpPE, hsw]
 
 /-- **In-place forms (partial).** For the combinations in `iopSupported` (`+= -= *=` on a box or
-    an element with any right operand; `<<=` on a box from a box or scalar) the statement leaves
+    an element with any right operand; `<<=` on a box from a box or scalar and on an element
+    from anything) the statement leaves
     the name bound to the same object whose box now holds the operator's result (`<<=`: the new
     value), or raises what the value operator raises and changes nothing. -/
 theorem inplace_same_ref_partial (i : IOp) (ka kb : Kind) (x y : ν)
@@ -59,20 +60,12 @@ theorem inplace_same_ref_partial (i : IOp) (ka kb : Kind) (x y : ν)
       Kind.hasOp, Kind.hasROp] <;>
     (split <;> simp_all [Res.rebox, Res.store])
 
-/-- `<<=` on a box replaces its value (right operand a box or a scalar) and keeps the box. -/
-theorem ilshift_replaces_partial (kb : Kind) (x y : ν) (hkb : kb ≠ .E) :
-    pyIop A .ishl .P kb x y = .done .same (.val y) := by
-  cases kb <;> simp_all [pyIop, iopP]
-
-/-- Today's `CoordPayload.__ilshift__`: from an element it assigns but the statement rebinds the
-    name to `None`; from anything else it *adds* (and rebinds to `None`). -/
-theorem today_elem_ilshift (x y : ν) :
-    pyIop A .ishl .E .E x y = .done .none (.val y) ∧
-    (∀ kb v, kb ≠ .E → A.bin .add x y = .ok v → pyIop A .ishl .E kb x y = .done .none (.val v)) := by
-  refine ⟨by simp [pyIop, iopE], ?_⟩
-  intro kb v hkb hv
-  cases kb <;>
-    simp_all [pyIop, iopE, pyBin, opPS, opPP, opSS, Kind.hasOp, Res.rebox, Res.storeNone]
+/-- `<<=` replaces the value and keeps the object: on a box from a box or a scalar, on an
+    element from a scalar, a box or an element. -/
+theorem ilshift_replaces_partial (ka kb : Kind) (x y : ν) (hka : ka ≠ .S)
+    (h : ¬ (ka = .P ∧ kb = .E)) :
+    pyIop A .ishl ka kb x y = .done .same (.val y) := by
+  cases ka <;> cases kb <;> simp_all [pyIop, iopP, iopE]
 
 /-- Today's `Payload.__ilshift__` given an element stores the element object, not its value. -/
 theorem today_box_ilshift_from_elem (x y : ν) :
@@ -118,8 +111,10 @@ example : pyCmp intAlg .lt .S .E 4 5 = true := by
   rw [box_cmp_table intAlg intAlg_swap]; decide
 example : pyIop intAlg .imul .E .P 12 5 = .done .same (.val 60) :=
   inplace_same_ref_partial intAlg .imul .E .P 12 5 (by decide)
-example : pyIop intAlg .ishl .E .S 12 5 = .done .none (.val 17) :=
-  (today_elem_ilshift intAlg 12 5).2 .S 17 (by decide) rfl
+example : pyIop intAlg .ishl .E .S 12 5 = .done .same (.val 5) :=
+  ilshift_replaces_partial intAlg .E .S 12 5 (by decide) (by decide)
+example : pyIop intAlg .ishl .E .E 12 5 = .done .same (.val 5) :=
+  inplace_same_ref_partial intAlg .ishl .E .E 12 5 (by decide)
 
 end C11
 
